@@ -62,6 +62,11 @@ def draw_metrics(rng, n):
                             m = [a, b, c, d, e, f]
                             if a + b + c + 2 * (d + e + f) < c and gl.spd(m) and 200 * gl.det6(m) >= a * b * c:
                                 look.append(m)
+    # lattices whose two shortest vectors have a cross product with components that cancel ((0, 6, -6): a along x, c = (0, k, k)): a
+    # collinearity test on the SUM of the components takes them for parallel
+    for m in ([9, 25, 8, 10, 0, 0], [9, 8, 25, 10, 0, 0], [16, 49, 18, 21, 0, 0], [25, 36, 8, 12, 0, 0]):
+        if gl.spd(m) and 200 * gl.det6(m) >= m[0] * m[1] * m[2]:
+            out.add(tuple(m))
     rng.shuffle(look)
     for m in look[: max(12, n // 8)]:
         out.add(tuple(m))
